@@ -7,6 +7,7 @@ import (
 	"go/ast"
 	"go/token"
 	"go/types"
+	"strings"
 )
 
 const pkgCTtls = "github.com/google/certificate-transparency-go/tls"
@@ -30,6 +31,9 @@ func init() {
 				Rule: "Checkpoint's success is dominated by note.Open with NewRFC6962Verifier(name, configured key), ParseCheckpoint of the verified text and origin == name; it returns that checkpoint and note", Run: c12d},
 			{ID: "C12.e", Title: "WITH-CUT-ENTRY", Template: "T4", MinInst: 2,
 				Rule: "every torchwood.NewClient call in the package passes WithCutEntry(cutEntry)", Run: c12e},
+			{ID: "C12.j", Title: "ENTRY-NOT-REWRITTEN", Template: "T4", MinInst: 1,
+				Rule: "no Merkle-covered field of a LogEntry is stored to in package sunlight outside the tile-leaf readers (an entry under construction from a literal excepted): what the client hands out is what was parsed from authenticated bytes, and the index / SCT comparisons made afterwards look at the authenticated values",
+				Run:  c12i},
 			{ID: "C12.g", Title: "VERIFIER-STRICT", Template: "T2", MinInst: 3,
 				Rule: "the note verifier that Checkpoint relies on accepts only when the text parses as a checkpoint, its origin is the verifier's name and it has no extension line (the guards of C11.c that decide WHAT content is covered by the log's signature): unsigned content cannot ride on a signed checkpoint",
 				Run:  func(c *Ctx) { c11cOnly(c, []string{"checkpoint parses", "origin == name", "no extension"}) }},
@@ -148,11 +152,57 @@ func c12b(c *Ctx) {
 	if e := c.Fn("sunlight.(*Client).Entry"); e != nil {
 		ts = append(ts, target{e, successReturns(e), "sunlight.(*Client).Entry"})
 	}
+	helper := entryParserHelper(c.P)
+	if helper != nil {
+		ts = append(ts, target{helper, successReturns(helper), helper.Name})
+	}
 	for _, t := range ts {
 		f := t.f
 		c.touch(f)
 		info := f.Info()
 		g := f.Graph()
+		if helper != nil && f != helper && !usesReader(f) {
+			// parsing delegated: the helper's own obligations are checked as a target of their own;
+			// here the helper's failure must keep the entry from the sink
+			var hcalls []Site
+			for _, s := range f.Find(func(n ast.Node) bool { _, ok := n.(*ast.CallExpr); return ok }) {
+				if fn, ok := calleeObj(info, s.X.(*ast.CallExpr)).(*types.Func); ok && fn.Origin() == helper.Obj {
+					s.Call = s.X.(*ast.CallExpr)
+					hcalls = append(hcalls, s)
+				}
+			}
+			inst := t.name + " parse succeeded"
+			okE, untested := gateEdges(hcalls, OutNil)
+			switch {
+			case len(hcalls) == 0:
+				c.Bad(t.name+" parse", f.Pos(f.Body), "entries are produced without parsing tile leaves")
+				continue
+			case len(untested) > 0 || len(okE) == 0:
+				c.Bad(inst, hcalls[0].Pos(), "the error of "+helper.Name+" is not tested")
+			default:
+				bad := false
+				for _, h := range hcalls {
+					if pt, _ := g.Reach(h.After(), Cut{Edges: okE}, atAnySite(t.sinks)); pt != nil {
+						c.Bad(inst, t.sinks[0].Pos(), "an entry can be yielded although parsing failed")
+						bad = true
+						break
+					}
+				}
+				if !bad {
+					c.add(Result{Instance: inst, Verdict: Discharged, Sites: sitePositions(t.sinks), Detail: "sink unreachable unless " + helper.Name + " succeeded", Witnesses: f.WitEdges(okE)})
+				}
+			}
+			c.OK(t.name+" reader selection", "delegated to "+helper.Name+" (checked there)", sitePositions(hcalls))
+			c.OK(t.name+" no trailing data", "delegated to "+helper.Name+" (checked there)", sitePositions(hcalls))
+			if t.name == "sunlight.(*Client).Entry" {
+				var ent types.Object
+				if a, ok := hcalls[0].Node.(*ast.AssignStmt); ok && len(a.Lhs) == 2 {
+					ent = objOf(info, a.Lhs[0])
+				}
+				c12bIndexCheck(c, f, ent, t.sinks)
+			}
+			continue
+		}
 		isAllow := func(e ast.Expr) bool {
 			_, p, ok := fieldPath(info, e)
 			return ok && len(p) >= 1 && p[len(p)-1] == "AllowRFC6962ArchivalLeafs"
@@ -161,17 +211,38 @@ func c12b(c *Ctx) {
 		allowF := g.EdgesImplying(func(a Atom) bool { return isAllow(a.E) && !a.Val })
 		arch := f.Calls(Callee{pkgRoot, "", "ReadTileLeafMaybeArchival"})
 		strict := f.Calls(Callee{pkgRoot, "", "ReadTileLeaf"})
+		// the reader may be chosen into a local function variable first: the binding sites stand for
+		// the calls in the selection rule, the calls through the variable are the parse sites
+		vcalls, vArch, vStrict := readerVar(f)
+		if len(arch)+len(strict) == 0 && len(vcalls) > 0 {
+			arch, strict = vArch, vStrict
+		}
 		inst := t.name + " reader selection"
 		switch {
 		case len(arch) == 0 && len(strict) > 0:
 			c.OK(inst, "only the strict reader is used", sitePositions(strict))
+		case len(arch) == 0:
+			c.Bad(inst, f.Pos(f.Body), "no tile-leaf reader is called")
 		case len(allowT) == 0:
 			c.Bad(inst, arch[0].Pos(), "archival leaves (without leaf index) are accepted regardless of the AllowRFC6962ArchivalLeafs option")
 		default:
 			p1, _ := g.ReachableFromEntry(Cut{Edges: allowT}, atAnySite(arch))
 			var p2 *Point
-			if len(strict) > 0 {
+			if len(strict) > 0 && len(vcalls) == 0 {
 				p2, _ = g.ReachableFromEntry(Cut{Edges: allowF}, atAnySite(strict))
+			}
+			if len(strict) > 0 && len(vcalls) > 0 {
+				// bound first, overridden only when allowed: the strict binding must reach the call when the option is off
+				if pt, _ := g.Reach(strict[0].After(), Cut{Edges: allowT, Stop: func(p Point, _ ast.Node) bool {
+					for _, a := range arch {
+						if a.P == p {
+							return true
+						}
+					}
+					return false
+				}}, atAnySite(vcalls)); pt == nil {
+					p2 = &Point{}
+				}
 			}
 			if p1 != nil {
 				c.Bad(inst, arch[0].Pos(), "the archival reader can be used although archival leaves are not allowed")
@@ -183,6 +254,9 @@ func c12b(c *Ctx) {
 		}
 		// error and rest
 		parses := append(append([]Site{}, arch...), strict...)
+		if len(vcalls) > 0 && len(f.Calls(Callee{pkgRoot, "", "ReadTileLeafMaybeArchival"}, Callee{pkgRoot, "", "ReadTileLeaf"})) == 0 {
+			parses = vcalls
+		}
 		if len(parses) == 0 {
 			c.Bad(t.name+" parse", f.Pos(f.Body), "entries are produced without parsing tile leaves")
 			continue
@@ -236,65 +310,7 @@ func c12b(c *Ctx) {
 		}
 		// Entry: index check
 		if t.name == "sunlight.(*Client).Entry" {
-			idxP := f.paramObj("index")
-			isLI := func(e ast.Expr) bool {
-				r, p, ok := fieldPath(info, e)
-				return ok && r == entObj && len(p) == 1 && p[0] == "LeafIndex"
-			}
-			isIdx := func(e ast.Expr) bool { return objOf(info, e) == idxP }
-			isArch := func(e ast.Expr) bool {
-				r, p, ok := fieldPath(info, e)
-				return ok && r == entObj && len(p) == 1 && p[0] == "RFC6962ArchivalLeaf"
-			}
-			safe := g.EdgesImplying(func(a Atom) bool {
-				if rel, ok := cmpRel(a, isLI, isIdx); ok && rel == relEQ {
-					return true
-				}
-				return isArch(a.E) && a.Val // archival leaves have no index to compare
-			})
-			// the false edge of `!archival && LeafIndex != index` implies neither atom; accept the
-			// compound: cut edges on which the compound guard is false
-			compound := g.EdgesImplying(func(a Atom) bool {
-				if a.Val {
-					return false
-				}
-				// the false edge of a conjunction made ONLY of `!archival` and `LeafIndex != index`
-				var conj []ast.Expr
-				var flat func(e ast.Expr)
-				flat = func(e ast.Expr) {
-					if be, ok := ast.Unparen(e).(*ast.BinaryExpr); ok && be.Op == token.LAND {
-						flat(be.X)
-						flat(be.Y)
-						return
-					}
-					conj = append(conj, ast.Unparen(e))
-				}
-				flat(a.E)
-				if len(conj) < 2 {
-					return false
-				}
-				hasNE := false
-				for _, e := range conj {
-					if rel, ok := cmpRel(Atom{e, true}, isLI, isIdx); ok && rel == relLT|relGT {
-						hasNE = true
-						continue
-					}
-					if u, ok := e.(*ast.UnaryExpr); ok && u.Op == token.NOT && isArch(u.X) {
-						continue
-					}
-					return false
-				}
-				return hasNE
-			})
-			inst := t.name + " index equality"
-			all := unionEdges(safe, compound)
-			if len(all) == 0 {
-				c.Bad(inst, t.sinks[0].Pos(), "Entry does not check that the authenticated leaf carries the requested index")
-			} else if pt, _ := g.ReachableFromEntry(Cut{Edges: all}, atAnySite(t.sinks)); pt != nil {
-				c.Bad(inst, t.sinks[0].Pos(), "Entry can succeed although the leaf's index differs from the requested one")
-			} else {
-				c.add(Result{Instance: inst, Verdict: Discharged, Sites: sitePositions(t.sinks), Detail: "success unreachable when a non-archival leaf's LeafIndex != index", Witnesses: f.WitEdges(all)})
-			}
+			c12bIndexCheck(c, f, entObj, t.sinks)
 		}
 	}
 	if len(ts) < 3 {
@@ -542,6 +558,71 @@ func c12e(c *Ctx) {
 
 func c12f(c *Ctx) {
 	// yields in Entries/AllEntries; returns in Entry
+	helper := entryParserHelper(c.P)
+	// the helper (if any) returns exactly what the tile-leaf reader produced from its byte parameter
+	helperBytes := -1 // index of the helper's []byte parameter among the call arguments
+	if helper != nil {
+		c.touch(helper)
+		hinfo := helper.Info()
+		okH := true
+		var bytesParam types.Object
+		for _, r := range successReturns(helper) {
+			o := objOf(hinfo, r.X.(*ast.ReturnStmt).Results[0])
+			nd := 0
+			for _, d := range helper.Defs(o) {
+				if d.Kind == DefZero {
+					continue
+				}
+				nd++
+				call, ok := ast.Unparen(d.Rhs).(*ast.CallExpr)
+				if d.Kind != DefAssign || !ok || d.Idx != 0 {
+					okH = false
+					continue
+				}
+				// read(e) where read is ReadTileLeaf / ReadTileLeafMaybeArchival directly or a local function value bound only to them
+				isReader := matchCallee(hinfo, call, Callee{pkgRoot, "", "ReadTileLeaf"}, Callee{pkgRoot, "", "ReadTileLeafMaybeArchival"})
+				if !isReader {
+					if fo := objOf(hinfo, call.Fun); fo != nil && isLocal(fo) {
+						isReader = len(helper.Defs(fo)) > 0
+						for _, fd := range helper.Defs(fo) {
+							if fn, ok := objOf(hinfo, fd.Rhs).(*types.Func); !ok || fd.Kind != DefAssign || fn.Pkg() == nil || fn.Pkg().Path() != pkgRoot || (fn.Name() != "ReadTileLeaf" && fn.Name() != "ReadTileLeafMaybeArchival") {
+								isReader = false
+							}
+						}
+					}
+				}
+				if !isReader || len(call.Args) != 1 {
+					okH = false
+					continue
+				}
+				bp := objOf(hinfo, call.Args[0])
+				if bp == nil || !isParamOrRecv(helper, bp) || (bytesParam != nil && bytesParam != bp) {
+					okH = false
+					continue
+				}
+				bytesParam = bp
+			}
+			if nd == 0 {
+				okH = false
+			}
+		}
+		if okH && bytesParam != nil {
+			i := 0
+			for _, fl := range helper.Type.Params.List {
+				for _, nm := range fl.Names {
+					if hinfo.Defs[nm] == bytesParam {
+						helperBytes = i
+					}
+					i++
+				}
+			}
+		}
+		if helperBytes < 0 {
+			c.Bad(helper.Name+" returns the parsed entry", helper.Pos(helper.Decl), "the parsing helper can return an entry that is not the tile-leaf reader's result for its byte parameter")
+		} else {
+			c.OK(helper.Name+" returns the parsed entry", "every successful return is ReadTileLeaf*(its byte parameter)", []string{helper.Pos(helper.Decl)})
+		}
+	}
 	check := func(f *Func, sinkEntry ast.Expr, pos string, inst string, sources []Callee) {
 		info := f.Info()
 		o := objOf(info, sinkEntry)
@@ -556,12 +637,22 @@ func c12f(c *Ctx) {
 			}
 			n++
 			call, ok := ast.Unparen(d.Rhs).(*ast.CallExpr)
-			if d.Kind != DefAssign || !ok || d.Idx != 0 || !matchCallee(info, call, Callee{pkgRoot, "", "ReadTileLeaf"}, Callee{pkgRoot, "", "ReadTileLeafMaybeArchival"}) {
+			viaHelper := false
+			if ok && helper != nil && helperBytes >= 0 {
+				if fn, isF := calleeObj(info, call).(*types.Func); isF && fn.Origin() == helper.Obj && helperBytes < len(call.Args) {
+					viaHelper = true
+				}
+			}
+			if d.Kind != DefAssign || !ok || d.Idx != 0 || !(viaHelper || matchCallee(info, call, Callee{pkgRoot, "", "ReadTileLeaf"}, Callee{pkgRoot, "", "ReadTileLeafMaybeArchival"})) {
 				c.Bad(inst, f.Pos(d.Node), "the entry yielded can come from something other than the tile-leaf reader")
 				return
 			}
 			// the bytes parsed come from the torchwood client
-			src := objOf(info, call.Args[0])
+			bytesArg := call.Args[0]
+			if viaHelper {
+				bytesArg = call.Args[helperBytes]
+			}
+			src := objOf(info, bytesArg)
 			okSrc := false
 			for _, sd := range f.Defs(src) {
 				switch sd.Kind {
@@ -649,4 +740,225 @@ func c12f(c *Ctx) {
 			}
 		}
 	}
+}
+
+// entryParserHelper: the one same-package function that Entries / AllEntries /
+// Entry delegate the tile-leaf parsing to (nil when they parse inline or when
+// the delegation is not unique). It takes the authenticated bytes and returns
+// (*LogEntry, error).
+func entryParserHelper(p *Program) *Func {
+	var roots []*Func
+	for _, name := range []string{"sunlight.(*Client).Entries", "sunlight.(*Client).AllEntries"} {
+		if top := p.Fn(name); top != nil {
+			roots = append(roots, allLits(top)...)
+		}
+	}
+	if e := p.Fn("sunlight.(*Client).Entry"); e != nil {
+		roots = append(roots, e)
+	}
+	var out *Func
+	for _, f := range roots {
+		info := f.Info()
+		for _, s := range f.Find(func(n ast.Node) bool { _, ok := n.(*ast.CallExpr); return ok }) {
+			fn, ok := calleeObj(info, s.X.(*ast.CallExpr)).(*types.Func)
+			if !ok || fn.Pkg() == nil || fn.Pkg().Path() != pkgRoot {
+				continue
+			}
+			h := p.FuncOf(fn.Origin())
+			if h == nil || h.Body == nil || h.Decl == nil {
+				continue
+			}
+			if !usesReader(h) {
+				continue
+			}
+			if fn.Name() == "ReadTileLeaf" || fn.Name() == "ReadTileLeafMaybeArchival" || fn.Name() == "Entry" || fn.Name() == "cutEntry" {
+				continue
+			}
+			sig := fn.Type().(*types.Signature)
+			if sig.Results().Len() != 2 || !isErrorType(sig.Results().At(1).Type()) {
+				continue
+			}
+			if out != nil && out != h {
+				return nil
+			}
+			out = h
+		}
+	}
+	return out
+}
+
+// c12i: nothing rewrites a Merkle-covered field of an entry after it was parsed
+// from authenticated bytes: in package sunlight's client code, the only stores to
+// fields of *LogEntry are inside the tile-leaf readers themselves.
+func c12i(c *Ctx) {
+	covered := []string{"Certificate", "IsPrecert", "IssuerKeyHash", "Timestamp", "LeafIndex", "PreCertificate", "RFC6962ArchivalLeaf", "ChainFingerprints"}
+	readers := map[string]bool{"sunlight.readTileLeaf": true, "sunlight.ReadTileLeaf": true, "sunlight.ReadTileLeafMaybeArchival": true}
+	n := 0
+	var bad []string
+	for _, fld := range covered {
+		fv := c.P.fieldVar(pkgRoot, "LogEntry", fld)
+		if fv == nil {
+			continue
+		}
+		for _, st := range c.P.AllStoresTo(fv) {
+			if st.F.Pkg.PkgPath != pkgRoot {
+				continue
+			}
+			top := st.F.Top()
+			if readers[top.Name] {
+				n++
+				continue
+			}
+			// an entry under construction from a composite literal in the same function is not an authenticated one
+			if ix, ok := ast.Unparen(st.Lhs).(*ast.SelectorExpr); ok && st.F.freshLocal(ix.X) {
+				n++
+				continue
+			}
+			c.touch(st.F)
+			bad = append(bad, fmt.Sprintf("%s is assigned in %s at %s", "LogEntry."+fld, st.F.Name, st.Pos()))
+		}
+	}
+	inst := "LogEntry fields written only by the tile-leaf reader"
+	if len(bad) > 0 {
+		c.Bad(inst, strings.SplitN(bad[0], " at ", 2)[1], "a Merkle-covered field of a parsed entry is overwritten outside the tile-leaf reader ("+strings.Join(bad, "; ")+"): what the client yields is no longer what the tree head commits to, and checks made on the entry afterwards (leaf index, SCT fields) compare against the rewritten value")
+		return
+	}
+	if n == 0 {
+		c.Unk(inst, "no store to a LogEntry field found in the reader (anchor lost)")
+		return
+	}
+	c.add(Result{Instance: inst, Verdict: Discharged, Evals: n, Detail: fmt.Sprintf("%d stores, all inside readTileLeaf / ReadTileLeaf*", n)})
+}
+
+// c12bIndexCheck: Entry succeeds only when a non-archival leaf carries the
+// requested index (entObj: the variable holding the parsed entry).
+func c12bIndexCheck(c *Ctx, f *Func, entObj types.Object, sinks []Site) {
+	info := f.Info()
+	g := f.Graph()
+	t := struct {
+		name  string
+		sinks []Site
+	}{"sunlight.(*Client).Entry", sinks}
+	if entObj == nil {
+		c.Unk(t.name+" index equality", "the variable holding the parsed entry was not identified")
+		return
+	}
+	{
+		idxP := f.paramObj("index")
+		isLI := func(e ast.Expr) bool {
+			r, p, ok := fieldPath(info, e)
+			return ok && r == entObj && len(p) == 1 && p[0] == "LeafIndex"
+		}
+		isIdx := func(e ast.Expr) bool { return objOf(info, e) == idxP }
+		isArch := func(e ast.Expr) bool {
+			r, p, ok := fieldPath(info, e)
+			return ok && r == entObj && len(p) == 1 && p[0] == "RFC6962ArchivalLeaf"
+		}
+		safe := g.EdgesImplying(func(a Atom) bool {
+			if rel, ok := cmpRel(a, isLI, isIdx); ok && rel == relEQ {
+				return true
+			}
+			return isArch(a.E) && a.Val // archival leaves have no index to compare
+		})
+		// the false edge of `!archival && LeafIndex != index` implies neither atom; accept the
+		// compound: cut edges on which the compound guard is false
+		compound := g.EdgesImplying(func(a Atom) bool {
+			if a.Val {
+				return false
+			}
+			// the false edge of a conjunction made ONLY of `!archival` and `LeafIndex != index`
+			var conj []ast.Expr
+			var flat func(e ast.Expr)
+			flat = func(e ast.Expr) {
+				if be, ok := ast.Unparen(e).(*ast.BinaryExpr); ok && be.Op == token.LAND {
+					flat(be.X)
+					flat(be.Y)
+					return
+				}
+				conj = append(conj, ast.Unparen(e))
+			}
+			flat(a.E)
+			if len(conj) < 2 {
+				return false
+			}
+			hasNE := false
+			for _, e := range conj {
+				if rel, ok := cmpRel(Atom{e, true}, isLI, isIdx); ok && rel == relLT|relGT {
+					hasNE = true
+					continue
+				}
+				if u, ok := e.(*ast.UnaryExpr); ok && u.Op == token.NOT && isArch(u.X) {
+					continue
+				}
+				return false
+			}
+			return hasNE
+		})
+		inst := t.name + " index equality"
+		all := unionEdges(safe, compound)
+		if len(all) == 0 {
+			c.Bad(inst, t.sinks[0].Pos(), "Entry does not check that the authenticated leaf carries the requested index")
+		} else if pt, _ := g.ReachableFromEntry(Cut{Edges: all}, atAnySite(t.sinks)); pt != nil {
+			c.Bad(inst, t.sinks[0].Pos(), "Entry can succeed although the leaf's index differs from the requested one")
+		} else {
+			c.add(Result{Instance: inst, Verdict: Discharged, Sites: sitePositions(t.sinks), Detail: "success unreachable when a non-archival leaf's LeafIndex != index", Witnesses: f.WitEdges(all)})
+		}
+	}
+}
+
+// usesReader: f calls or references ReadTileLeaf / ReadTileLeafMaybeArchival.
+func usesReader(f *Func) bool {
+	info := f.Info()
+	found := false
+	ast.Inspect(f.Body, func(n ast.Node) bool {
+		if id, ok := n.(*ast.Ident); ok {
+			if fn, ok := info.Uses[id].(*types.Func); ok && fn.Pkg() != nil && fn.Pkg().Path() == pkgRoot && (fn.Name() == "ReadTileLeaf" || fn.Name() == "ReadTileLeafMaybeArchival") {
+				found = true
+			}
+		}
+		return true
+	})
+	return found
+}
+
+// readerVar: a local function variable of f all of whose definitions are one of
+// the two tile-leaf readers; returns the sites calling it, and the definition
+// sites that bind the archival / the strict reader.
+func readerVar(f *Func) (calls, archDefs, strictDefs []Site) {
+	info := f.Info()
+	for _, s := range f.Find(func(n ast.Node) bool { _, ok := n.(*ast.CallExpr); return ok }) {
+		call := s.X.(*ast.CallExpr)
+		fo := objOf(info, call.Fun)
+		if fo == nil || !isLocal(fo) || len(f.Defs(fo)) == 0 {
+			continue
+		}
+		var a, st []Site
+		ok := true
+		for _, d := range f.Defs(fo) {
+			fn, isF := objOf(info, d.Rhs).(*types.Func)
+			if d.Kind != DefAssign || !isF || fn.Pkg() == nil || fn.Pkg().Path() != pkgRoot {
+				ok = false
+				break
+			}
+			ds := f.Find(func(n ast.Node) bool { return n == d.Node })
+			if len(ds) != 1 {
+				ok = false
+				break
+			}
+			switch fn.Name() {
+			case "ReadTileLeafMaybeArchival":
+				a = append(a, ds[0])
+			case "ReadTileLeaf":
+				st = append(st, ds[0])
+			default:
+				ok = false
+			}
+		}
+		if ok {
+			s.Call = call
+			calls = append(calls, s)
+			archDefs, strictDefs = a, st
+		}
+	}
+	return
 }
